@@ -188,13 +188,27 @@ def check(ctx):
     ctx.ob("R3", f"{HJ}:JsonHistory.__len__", "len() = appended - skipped", ok, key="len|formula")
     du = flat(ctx, hj.func("JsonHistoryFlusher.dump"), depth=2, skip=("skip",))
     dcfg = CFG(du)
-    conts = [n for n in dcfg.nodes if n.kind == "stmt" and isinstance(n.ast, ast.Continue) and any(isinstance(a, ast.For) and unparse(a.iter) == "self.buffer" for a in ancestors(n.ast))]
-    if len(conts) < 1:
-        raise AnalysisError(f"{HJ}:JsonHistoryFlusher.dump: filtering `continue`s not found")
-    for c in conts:
-        par = parent(c.ast)
-        sk = [s for s in par.body if any(call_name(x) == "self.skip" and x.args and const_value(x.args[0]) == 1 for x in calls_in(s))] if isinstance(par, ast.If) else []
-        ctx.ob("R3", f"{HJ}:JsonHistoryFlusher.dump", f"the command filtered out under `{short(par.test, 50)}` is accounted by skip(1)", bool(sk), key=f"dump|unaccounted-skip|{short(par.test, 40)}", where=loc(c.ast))
+    # every command of the buffer is either kept (appended to the list that goes to disk) or accounted by skip(1):
+    # enumerate the paths through the body of the loop over the buffer
+    from ..engine import dtable as _dt
+
+    bloops = [n for n in walk_local(du) if isinstance(n, ast.For) and unparse(n.iter) == "self.buffer"]
+    if len(bloops) != 1:
+        raise AnalysisError(f"{HJ}:JsonHistoryFlusher.dump: the loop over self.buffer was not found exactly once ({len(bloops)})")
+    n_filtered = 0
+    for p_ in _dt.paths(bloops[0].body, loops="skip"):
+        if not _dt.feasible(p_) or p_.outcome == "raise":
+            continue
+        eff = [e.value if isinstance(e, ast.Expr) else e for e in p_.effects]
+        kept = any(isinstance(e, ast.Call) and isinstance(e.func, ast.Attribute) and e.func.attr == "append" and e.args and unparse(e.args[0]) == unparse(bloops[0].target) for e in eff)
+        skipped = any(isinstance(e, ast.Call) and call_name(e) == "self.skip" and e.args and const_value(e.args[0]) == 1 for e in eff)
+        no_counter = any(unparse(e) == "self.skip is None" and pol for e, pol in p_.conds)
+        if kept:
+            continue
+        n_filtered += 1
+        ctx.ob("R3", f"{HJ}:JsonHistoryFlusher.dump", f"the command filtered out under [{'; '.join(p_.cond_texts())[:90]}] is accounted by skip(1)", skipped or no_counter, key=f"dump|unaccounted-skip|{'; '.join(t for t in p_.cond_texts() if 'skip' not in t)[:60]}", where=loc(p_.node) if p_.node is not None else loc(bloops[0]))
+    if n_filtered < 1:
+        raise AnalysisError(f"{HJ}:JsonHistoryFlusher.dump: no filtering path found in the loop over the buffer")
     # kept commands are appended in buffer order
     ext = [n for n in dcfg.nodes if n.kind == "stmt" and any(last_attr(c) == "extend" and isinstance(c.func.value, ast.Subscript) and const_value(c.func.value.slice) == "cmds" and c.args and isinstance(c.args[0], ast.Name) for c in calls_in(n.ast))]
     kept_names = set()
@@ -279,6 +293,9 @@ def check(ctx):
     # ------------------------------------------------------------------ R5
     bs = ctx.repo.module(BS)
     df_ = bs.func("BaseShell.default")
+    if not any(call_name(c) == "self._append_history" for c in calls_in(df_)):
+        # the bookkeeping after a command may have moved into a helper of the shell (`_finish_command(...)`)
+        df_ = flat(ctx, df_, 1, skip=("_append_history", "_fix_cwd", "run_compiled_code", "push", "precmd", "print_exception"))
     cfg = CFG(df_, catchall=("BaseException",))
     run = [n for n in cfg.nodes if n.kind == "stmt" and any(call_name(c) == "run_compiled_code" for c in calls_in(n.ast))]
     app = [n for n in cfg.nodes if n.kind == "stmt" and any(call_name(c) == "self._append_history" for c in calls_in(n.ast))]
